@@ -50,7 +50,7 @@ func genC16(t *rapid.T, ctx *Ctx) interface{} {
 	c := &C16Case{Kind: rapid.SampledFrom(c16Kinds).Draw(t, "kind"), MaxDoc: rapid.SampledFrom([]int{60, 150, 400, 5000}).Draw(t, "maxdoc"),
 		MaxDepth: rapid.SampledFrom([]int{3, 5, 1000}).Draw(t, "maxdepth")}
 	evOpts := gen.EvOpts{Comments: true, Padding: true, CustomBinary: true, Media: true, Markers: true, Records: true, Chunked: true, URLRID: true,
-		MaxDepth: 3, MaxArr: 30, Budget: 10, NoEdge: true}
+		FullUnicode: true, MidCharSplit: true, MaxDepth: 3, MaxArr: 30, Budget: 10, NoEdge: true}
 	avoid(ctx, &evOpts, "S59-marked-node-value", "S35-key-reference", "S34-reference-in-node")
 	evOpts.NoBitArray, evOpts.NoUIDArray = true, true
 	n := rapid.IntRange(2, 8).Draw(t, "nops")
